@@ -67,7 +67,7 @@ def l1_loop_guard(F, r):
     it = oe.Interp(F, mg[0], {1: oe.ref(oe.sym("self")), 2: oe.ref(oe.sym("ctx"))}, heap={("self", "limit"): oe.sym("limit")}, fresh=True)
     n = 0
     for p in it.explore():
-        rel = [a for a in p.assumptions if len(a) == 3 and a[2] in "LEG"]
+        rel = [a for a in p.assumptions if len(a) == 3 and isinstance(a[2], str) and a[2] in "LEG" and a[0] != "switch"]
         if not rel:
             r.fail("MaxGeneration::is_termination", f"not a comparison of the generation counter with the limit (returns {p.ret}, not decidable)", F.loc(mg[0]))
             continue
